@@ -384,6 +384,59 @@ def fam_classifier_validate(case):
 FAMILIES["classifier_validate"] = fam_classifier_validate
 
 
+def fam_sliding_window(case):
+    """SlidingWindowClassifier.fit / partial_fit with a recording estimator: the estimator is fitted on exactly the last window_size samples
+    handed over since the last fit (after the only_labeled filter), oldest first, whatever the object held before"""
+    from skactiveml.base import SkactivemlClassifier
+    from skactiveml.classifier import SlidingWindowClassifier
+
+    class Rec(SkactivemlClassifier):
+        def fit(self, X, y, sample_weight=None):
+            self.seen_ = (np.asarray(X).tolist(), np.asarray(y).tolist(), None if sample_weight is None else np.asarray(sample_weight).tolist())
+            self.n_fits_ = getattr(self, "n_fits_", 0) + 1
+            return self
+
+        def predict_proba(self, X):
+            return np.ones((len(X), 2)) / 2
+    n, ws = int(case["n"]), case["window_size"]
+    ol, wg = case["only_labeled"], case["weights"]
+    if case["w"] is not None and any(not np.isfinite(v) for v in case["w"]):
+        return []
+    X = np.arange(n, dtype=float).reshape(n, 1) + 1
+    y = np.array([np.nan if m else float(i % 2) for i, m in enumerate(case["missing"])], dtype=float)
+    w = None if not wg else np.array(case["w"], dtype=float)
+    clf = SlidingWindowClassifier(Rec(classes=[0, 1]), window_size=ws, only_labeled=ol, classes=[0, 1])
+    old = []
+    if case["history"] is not None:
+        T = int(case["history"])
+        Xo = -(np.arange(T, dtype=float).reshape(T, 1) + 1)
+        yo = np.array([float(i % 2) for i in range(T)])
+        wo = None if not wg else np.arange(T, dtype=float) + 0.5
+        clf.fit(Xo, yo, sample_weight=wo)
+        old = [(Xo[i].tolist(), yo[i], None if wo is None else wo[i]) for i in range(T)]
+    getattr(clf, case["which"])(X, y, sample_weight=w)
+    new = [(X[i].tolist(), y[i], None if w is None else w[i]) for i in range(n) if not (ol and case["missing"][i])]
+    H = (old if case["which"] == "partial_fit" else []) + new
+    win = H if ws is None else H[-int(ws):] if len(H) > 0 else []
+    seen = getattr(clf.estimator_, "seen_", None)
+    out = []
+    same = lambda a, b: (a is None and b is None) or (a is not None and b is not None and np.array_equal(np.asarray(a, dtype=float), np.asarray(b, dtype=float), equal_nan=True))
+    if seen is None or getattr(clf.estimator_, "n_fits_", 0) != 1:
+        out.append({"sig": case["sig"], "detail": "the copy of the estimator was not fitted exactly once"})
+    else:
+        wantX, wanty = [t[0] for t in win], [t[1] for t in win]
+        wantw = [t[2] for t in win] if wg else None
+        if not same(np.asarray(seen[0]).reshape(-1), np.asarray(wantX).reshape(-1)) or not same(seen[1], wanty) or not same(seen[2], wantw):
+            out.append({"sig": case["sig"], "detail": f"{case['which']} with window_size={ws}, only_labeled={ol}: estimator fitted on samples "
+                                                      f"{np.asarray(seen[0]).reshape(-1).tolist()} (labels {seen[1]}, weights {seen[2]}) but the last window of the "
+                                                      f"samples given is {np.asarray(wantX).reshape(-1).tolist()} (labels {wanty}, weights {wantw}); "
+                                                      f"negative ids = samples of an earlier fit"})
+    return out
+
+
+FAMILIES["sliding_window"] = fam_sliding_window
+
+
 def run_case(prop, case):
     with np.errstate(all="ignore"):
         try:
